@@ -2,9 +2,10 @@
 
 Proofs: coq/theories/Props/C01.v (pure core compare_sync + system invariant
 over all multi-session traces of the Store model).
-Correspondence: seeded multi-session traces on the real dict backend, every
-step compared with Store/System.step inside Coq (responses + glass-box views,
-mailboxes, modification log); all schedules of 2 sessions x 3 commands.
+Correspondence: seeded multi-session traces on the real dict backend and on the
+real maildir backend, every step compared with Store/System.step inside Coq
+(responses + glass-box views, mailboxes, modification log / maildir files, the
+shadow clients' flags); all schedules of 2 sessions x 3 commands (dict).
 Monitors: shadow IMAP client per connection (harness/store_monitor.py).
 """
 from __future__ import annotations
@@ -103,17 +104,20 @@ def section_exhaustive(ctx, clauses):
     return evals
 
 
-def section_maildir(ctx, clauses):
-    """Monitors only (the model describes the dict backend): shadow clients and
-    the probe comparison on the maildir backend, reduced volume."""
+def section_maildir(ctx, clauses, witnesses=None):
+    """The maildir backend (mailboxes with mb_md = true in the model): seeded
+    multi-session traces under the same monitors (shadow clients, probe) and the
+    same per-step comparison with System.step inside Coq (responses, every
+    connection's SynchronizedMessages, the mailbox as the files say); the
+    regression witnesses are replayed on it as well.  IDLE is left out: the
+    maildir backend polls once a second."""
     from .. import store_maildir as SM
     n = ctx.scale(16, 250)
     steps = compared = 0
-    for i in range(n):
-        rng = random.Random(f'{ctx.prop}-{ctx.seed}-maildir-{i}')
-        nsess = rng.randint(2, 3)
-        trace, mon, run = SC.run_sync(SM.monitored_maildir_trace(
-            rng, nsess=nsess, nsteps=rng.randint(8, 20), layout=rng.choice(['++', 'fs'])))
+    traces = []
+
+    def book(trace, mon, nsess, tag):
+        nonlocal steps, compared
         steps += len(trace.steps)
         compared += mon.n_compared
         labels = trace.labels()
@@ -121,13 +125,52 @@ def section_maildir(ctx, clauses):
             if f['clause'] in clauses:
                 ctx.failure(f['clause'], '[maildir] ' + f['what'],
                             {'backend': 'maildir', 'labels': SC.labels_repr(labels[:f['step'] + 1]),
-                             'nsess': nsess, 'session': f['session'], 'step': f['step']},
+                             'nsess': nsess, 'session': f['session'], 'step': f['step'],
+                             'generator': tag},
                             {**f['obs'], 'backend': 'maildir'})
+        for p in trace.problems:
+            ctx.disagreement('maildir:' + p['kind'], {**p, 'labels': SC.labels_repr(labels)[:1500]})
         for lab, resp, _ in trace.steps:
             ctx.count(('maildir', repr(lab), repr(resp)),
                       nontrivial=any(r[0] in ('expunge', 'exists', 'fetch') for r in resp))
-    ctx.extra['maildir_monitor_only'] = {'traces': n, 'steps': steps,
-                                         'views_compared_with_probe': compared}
+        traces.append(trace)
+
+    for i in range(n):
+        rng = random.Random(f'{ctx.prop}-{ctx.seed}-maildir-{i}')
+        nsess = rng.randint(2, 3)
+        trace, mon, run = SC.run_sync(SM.monitored_maildir_trace(
+            rng, nsess=nsess, nsteps=rng.randint(8, 20), layout=rng.choice(['++', 'fs']),
+            group=rng.choice([0.0, 0.15]), flipflop=rng.choice([0.0, 0.4])))
+        book(trace, mon, nsess, 'maildir-random')
+    nwit = 0
+    for name, (nsess, labels) in (witnesses or {}).items():
+        if any(l[0] != 'cmd' or l[2][0] == 'idle' for l in labels):
+            continue
+        trace, mon = SC.run_sync(SM.monitored_maildir_fixed(labels, nsess=nsess))
+        book(trace, mon, nsess, 'maildir-witness:' + name)
+        nwit += 1
+    evals = [SC.CaseEval(ctx, 'store_maildir_traces', traces)]
+    # every interleaving (20 schedules) of 2 sessions x 3 commands of the uid-free alphabet
+    # `core3` on maildir, for sampled program pairs
+    traces = []
+    progs = list(SC.exhaustive_programs(SC.ALPHABETS['core3'], 3))
+    rng = random.Random(f'{ctx.prop}-{ctx.seed}-maildir-exh')
+    progs = rng.sample(progs, ctx.scale(2, 60))
+    for p1, p2 in progs:
+        for sched in SC.schedules(3, 3):
+            labels = [('cmd', 1, ('select', 1, False)),
+                      ('cmd', 1, ('fetch', [(1, '*')], False, True, False)),
+                      ('cmd', 2, ('select', 1, False)),
+                      ('cmd', 2, ('fetch', [(1, '*')], False, True, False))] \
+                + SC.interleave(p1, p2, sched)
+            trace, mon = SC.run_sync(SM.monitored_maildir_fixed(labels, nsess=2))
+            book(trace, mon, 2, 'maildir-exhaustive:core3')
+            traces[-1] = SC.Packed(trace, light=True)
+    ctx.extra['maildir'] = {'traces': n, 'witnesses_replayed': nwit,
+                            'schedule_traces': len(traces), 'program_pairs': len(progs),
+                            'steps': steps, 'views_compared_with_probe': compared}
+    evals.append(SC.CaseEval(ctx, 'store_maildir_schedules', traces, shard=60, jobs=7, light=True))
+    return evals
 
 
 def section_witnesses(ctx, clauses, witnesses) -> None:
@@ -144,14 +187,16 @@ RULE = ('a case is one multi-session trace: 2-4 connections on the dict backend,
         'state-aware from APPEND/STORE(+,-,replace,.SILENT)/EXPUNGE/UID EXPUNGE/COPY/MOVE/FETCH/SEARCH/'
         'NOOP/CHECK/IDLE..DONE/SELECT/EXAMINE with sequence sets biased to `*`, the last message, one '
         'past the end and messages another connection has expunged; plus every interleaving of 2 '
-        'connections x 3 commands over two 4-command alphabets; evaluations count steps, non-trivial = '
+        'connections x 3 commands over two 4-command alphabets; plus the same kind of traces on the '
+        'maildir backend (2-3 connections, 8-20 commands, no IDLE; all schedules of sampled program '
+        'pairs of the 3-command alphabet); evaluations count steps, non-trivial = '
         'the step produced EXPUNGE/EXISTS/FETCH data, distinct by (label, responses)')
 ASSUMPTIONS = [
     'dict backend under asyncio: a command body runs without suspending (measured on every command '
     'of every trace; CHECK suspends once, before it reads or writes anything)',
-    'the model and the theorems describe the dict backend; the maildir backend is only run '
-    'under the model-independent monitors at reduced volume (asyncio subsystem, in-process), '
-    'redis not at all',
+    'the model and the theorems cover the dict backend and the maildir backend (full rescan on '
+    'every update_selected; in-process, asyncio subsystem, IDLE and its 1 s poll left out, '
+    'reduced volume); redis not at all',
     'session flags other than \\Recent are not defined by the dict backend (measured: '
     'SessionFlags._flags stays empty)',
 ]
@@ -164,7 +209,7 @@ def run(ctx) -> None:
     clauses = SC.C01_CLAUSES
     evals = [section_witnesses(ctx, clauses, WITNESSES), section_random(ctx, clauses)]
     evals += section_exhaustive(ctx, clauses)
-    section_maildir(ctx, clauses)
+    evals += section_maildir(ctx, clauses, WITNESSES)
     for ev in evals:
         ev.finish()
 
